@@ -18,10 +18,14 @@ for f in kf:
         suite = subprocess.run(["/venv/bin/python", "-m", "pytest", "-q", "-p", "no:cacheprovider", "-x"], cwd=wt, env=dict(os.environ, PYTHONPATH=wt),
                                capture_output=True, text=True).stdout.strip().splitlines()[-1:]
         for chk in f["properties"]:
-            env = dict(os.environ, VERIF_REPO=wt, VERIF_EVIDENCE_DIR=f"{V}/.work/mut-evidence")
+            coqdir = f"{wt}-coq"                     # a private copy of the Coq development (generated files are rewritten from the tree under test)
+            shutil.rmtree(coqdir, ignore_errors=True)
+            shutil.copytree(f"{V}/coq", coqdir, symlinks=True)
+            env = dict(os.environ, VERIF_REPO=wt, VERIF_EVIDENCE_DIR=f"{V}/.work/mut-evidence", VERIF_COQ_DIR=coqdir)
             p = subprocess.run([f"{V}/check", chk, "quick"], capture_output=True, text=True, cwd=V, env=env, timeout=3000)
             viol = [l for l in p.stdout.splitlines() if l.startswith("VIOLATION")]
             print(f["id"], f["commit"], chk, "exit", p.returncode, "CAUGHT" if viol else "missed", (viol[:1] or [""])[0][-40:], "suite:", suite, flush=True)
     finally:
         subprocess.run(["git", "-C", "/repo", "worktree", "remove", "--force", wt], capture_output=True)
         shutil.rmtree(wt, ignore_errors=True)
+        shutil.rmtree(f"{wt}-coq", ignore_errors=True)
